@@ -3,7 +3,7 @@
     numbers.  No theorem depends on this file. *)
 From Coq Require Import ZArith List Bool NArith.
 From HK Require Import Model.NonceCache Model.Hmac Model.Sha256 Model.BasicAuth Model.Ingress
-  Model.Reload Model.HmacHistory Model.AuthCompile.
+  Model.ReloadAuth Model.HmacHistory Model.AuthCompile.
 Import ListNotations.
 Open Scope Z_scope.
 
